@@ -98,6 +98,17 @@ CLAIMS = {
          "recorded faulty trace must be accepted by the extracted faulty acceptor, payload/probe/next-dispatch oracles on the real run",
          "unwinding and rayon's panic propagation are modelled (superset: siblings complete, stop at their own panic or never start)",
          "trace-set theorems + differential correspondence", "5 C14"),
+ "C16": ("proof by induction over trees of any depth and fan-out: every trace is a permutation of the sequential trace (each leaf "
+         "exactly once); for every seq node at any depth, every leaf of an earlier child has released before any leaf of a later "
+         "child fetches, in EVERY trace; par children may overlap; node reads/writes = concatenation over its leaves; the debug check "
+         "of Par::with panics iff W/W, W/R or R/W conflict with the accumulated children. tie: S6 — trees assembled at run time from "
+         "the REAL Par/Seq types through a boxing adapter: all shapes with <= 4 leaves, random trees to depth 5 / fan-out 6, "
+         "arbitrary leaf access (so some `with` calls must panic), pools 1,2,4,16, dispatch from outside and inside the pool, "
+         "forced overlap of par children, jitter; build outcome, reported reads/writes, setup order, recorded trace (accepted by "
+         "the extracted acceptor), run counts over two dispatches",
+         "debug build (check active) in the quick tier; rayon join modelled as arbitrary interleaving; setup order = leaves in "
+         "order is definitional in the model and compared with the recorded calls",
+         "structural induction + differential correspondence", "5 C16"),
  "C17": ("proof: table invariant (aligned tables, no type twice, tys = first-registration order) for EVERY register sequence with "
          "repeats, total; get converts exactly the registered types through the vtable made for that very type, None otherwise, "
          "panic for an address-changing cast; the shared iterator over a world without exclusive borrows yields exactly the "
@@ -121,7 +132,7 @@ CLAIMS = {
          "stage/group and are outside the text",
          "invariant induction + differential correspondence", "5 C20"),
 }
-REGISTERED = ["C01", "C02", "C03", "C04", "C05", "C06", "C07", "C08", "C09", "C10", "C12", "C13", "C14", "C17", "C18", "C20"]
+REGISTERED = ["C01", "C02", "C03", "C04", "C05", "C06", "C07", "C08", "C09", "C10", "C12", "C13", "C14", "C16", "C17", "C18", "C20"]
 
 def main():
     props = [json.loads(l) for l in open(os.path.join(VERIF, "properties.jsonl"))]
